@@ -69,7 +69,42 @@ func mangleCase(r *core.Rand, s string) string {
 
 func pad(r *core.Rand, s string) string {
 	ws := []string{"", "", " ", "  ", "\t", " \t "}
+	if r.Chance(1, 25) {
+		// white space a parser never leaves inside a value (a folded line, bare CR/LF, VT, FF): only a
+		// modifier writing the map can; the oracle abstains, the model comparison does not
+		core.Count("gen:exotic-whitespace")
+		ws = []string{"\r\n ", "\n", "\r\n\t", "\v", "\f", " \r"}
+	}
 	return ws[r.Intn(len(ws))] + s + ws[r.Intn(len(ws))]
+}
+
+// respell returns k in a spelling other than the canonical one ("" when there is none, e.g. "9").
+func respell(r *core.Rand, k string) string {
+	for i := 0; i < 6; i++ {
+		var c string
+		switch r.Intn(3) {
+		case 0:
+			c = strings.ToLower(k)
+		case 1:
+			c = strings.ToUpper(k)
+		default:
+			b := []byte(k)
+			for j := range b {
+				if r.Bool() {
+					if 'a' <= b[j] && b[j] <= 'z' {
+						b[j] -= 32
+					} else if 'A' <= b[j] && b[j] <= 'Z' {
+						b[j] += 32
+					}
+				}
+			}
+			c = string(b)
+		}
+		if c != http.CanonicalHeaderKey(c) {
+			return c
+		}
+	}
+	return ""
 }
 
 type genOpts struct {
@@ -94,6 +129,14 @@ func genViaEntry(r *core.Rand, o genOpts, mine bool) string {
 		return "1.1"
 	}
 	return r.Pick("1.1 ", "1.0 ", "HTTP/1.1 ", "2 ") + r.Pick("fred", "proxy.example.com:8080", "p", "nowhere.com (Apache/1.1)", "ricky", "martian", "other-"+o.boundary)
+}
+
+func viaSep(r *core.Rand) string {
+	if r.Chance(1, 30) {
+		core.Count("gen:exotic-whitespace")
+		return r.Pick(",\r\n ", ",\n", "\r\n\t, ")
+	}
+	return r.Pick(", ", ",", " , ", ",\t")
 }
 
 func genHeader(r *core.Rand, o genOpts) http.Header {
@@ -124,7 +167,26 @@ func genHeader(r *core.Rand, o genOpts) http.Header {
 	// fixed hop-by-hop headers (values irrelevant); Connection and Transfer-Encoding below
 	for _, k := range fixedNames {
 		if k != "Connection" && k != "Transfer-Encoding" && r.Chance(1, 5) {
-			put(k, 1+r.Intn(3)/2)
+			switch {
+			case k == "Keep-Alive" && r.Bool():
+				h[k] = []string{r.Pick("timeout=5, max=100", "timeout=5", "max=1;x", "300", "timeout=5,max=100, X-Custom")}
+				core.Count("gen:keep-alive-params")
+			case k == "Proxy-Connection" && r.Bool():
+				// a token list like Connection's; its tokens are NOT connection options
+				v := r.Pick("keep-alive", "close", "Keep-Alive, Foo")
+				var pks []string
+				for pk := range h {
+					pks = append(pks, pk)
+				}
+				sortStrings(pks)
+				if len(pks) > 0 && r.Bool() {
+					v = r.Pick("keep-alive, ", "", "close,") + mangleCase(r, pks[r.Intn(len(pks))])
+				}
+				h[k] = []string{v}
+				core.Count("gen:proxy-connection-list")
+			default:
+				put(k, 1+r.Intn(3)/2)
+			}
 		}
 	}
 	// pre-existing Via
@@ -145,7 +207,7 @@ func genHeader(r *core.Rand, o genOpts) http.Header {
 			for j := 0; j < n; j++ {
 				es = append(es, genViaEntry(r, o, j == minePos))
 			}
-			h["Via"] = append(h["Via"], strings.Join(es, r.Pick(", ", ",", " , ", ",\t")))
+			h["Via"] = append(h["Via"], strings.Join(es, viaSep(r)))
 		}
 	}
 	// pre-existing X-Forwarded-*
@@ -175,7 +237,7 @@ func genHeader(r *core.Rand, o genOpts) http.Header {
 		h["Content-Length"] = pickStrs(r, []string{"5", "6"}, []string{"5, 6"}, []string{"5", "5", "7"}, []string{"5,5", "05"}, []string{"0", "00"}, []string{"5 ,6"})
 		core.Count("gen:cl-conflict")
 	case 4:
-		h["Content-Length"] = pickStrs(r, []string{""}, []string{",5"}, []string{"5,"}, []string{"", "5"}, []string{" "}, []string{"5", ""}, []string{"abc"}, []string{"-1", "-1"})
+		h["Content-Length"] = pickStrs(r, []string{""}, []string{",5"}, []string{"5,"}, []string{"", "5"}, []string{" "}, []string{"5", ""}, []string{"abc"}, []string{"-1", "-1"}, []string{"5,\r\n 5"}, []string{"5\n", "5"}, []string{"5\v", "6"})
 		core.Count("gen:cl-odd")
 	}
 	switch r.Intn(10) {
@@ -184,12 +246,40 @@ func genHeader(r *core.Rand, o genOpts) http.Header {
 	case 1:
 		h["Transfer-Encoding"] = pickStrs(r, []string{"gzip, chunked"}, []string{"gzip", "chunked"}, []string{" chunked "}, []string{"gzip ,\tchunked"}, []string{"chunked", "chunked"})
 	case 2:
-		h["Transfer-Encoding"] = pickStrs(r, []string{"gzip"}, []string{"chunked, gzip"}, []string{"chunked", "identity"}, []string{"chunked,"}, []string{""}, []string{"chunkedx"}, []string{"xchunked"}, []string{"chunked", ""})
+		h["Transfer-Encoding"] = pickStrs(r, []string{"gzip"}, []string{"chunked, gzip"}, []string{"chunked", "identity"}, []string{"chunked,"}, []string{""}, []string{"chunkedx"}, []string{"xchunked"}, []string{"chunked", ""}, []string{"gzip,\r\n chunked\r\n"}, []string{"chunked\f"}, []string{"gzip", "\nidentity"})
 		core.Count("gen:te-bad")
 	case 3:
 		if r.Chance(1, 3) {
 			h["Transfer-Encoding"] = []string{r.Pick("Chunked", "CHUNKED", "gzip, Chunked")}
 			core.Count("gen:te-chunked-other-case")
+		}
+	}
+	// keys in a spelling net/http's parser never stores (a modifier wrote the map directly): an
+	// existing key re-spelled (moved or duplicated), or a hop-by-hop / stamped name in another spelling
+	if r.Chance(1, 6) {
+		for i, n := 0, r.Range(1, 2); i < n; i++ {
+			var ks []string
+			for k := range h {
+				ks = append(ks, k)
+			}
+			sortStrings(ks)
+			switch {
+			case len(ks) > 0 && r.Chance(1, 2):
+				k := ks[r.Intn(len(ks))]
+				if c := respell(r, k); c != "" {
+					h[c] = append([]string{}, h[k]...)
+					if r.Bool() {
+						delete(h, k)
+					}
+					core.Count("gen:noncanonical-key:respelled")
+				}
+			default:
+				k := r.Pick("Keep-Alive", "Transfer-Encoding", "Connection", "Via", "Content-Length", "X-Forwarded-For", "X-Forwarded-Proto", "Upgrade", "Te", "X-Custom")
+				if c := respell(r, k); c != "" {
+					h[c] = []string{r.Pick("x", "chunked", "5", "X-Custom, close", "1.1 "+o.name+"-"+o.boundary, "gzip", "https")}
+					core.Count("gen:noncanonical-key:named")
+				}
+			}
 		}
 	}
 	// Connection: 0-3 lines, 0-4 tokens each
